@@ -332,6 +332,8 @@ def realcli(args):
             while par.startswith(rootdir.encode()) and par != rootdir.encode():
                 os.chown(par, euid, euid)
                 par = os.path.dirname(par)
+        # the mode of the extraction directory only now (a set-group-ID bit would be handed to the directories created above)
+        os.chmod(rootdir, int(spec.get("rootmode", "493")))
         # time stamps last, deepest first (creating a child re-stamps its directory)
         for typ, path, mode, mtime, data, target in sorted(spec["fs"], key=lambda e: -len(e[1])):
             if typ != "l":
@@ -408,7 +410,7 @@ def realcli(args):
         # make everything removable again
         subprocess.run(["chmod", "-R", "u+rwx", base], capture_output=True)
     shutil.rmtree(base, ignore_errors=True)
-    print("realcli: %d plans compared (%d skipped: library-policy plans or absolute w=), %d disagreements" % (done, skipped, bad))
+    print("realcli: %d plans compared (%d skipped: library-policy plans, absolute w=, injected system-call failures), %d disagreements" % (done, skipped, bad))
     return 1 if bad else 0
 
 
